@@ -17,9 +17,9 @@
 // After every step: empty() agrees with the model; with unregister::base the unregister callback of connection k has run
 // exactly once if k is dead and not at all if it is alive.  A moved-from signal is only destroyed or assigned to
 // (its combiner is a moved-from std::function).
-// avoid=1 excludes by assumption the one situation that triggers defect D1 of the intrusive list (move-assignment from
+// h_signal*_safe exclude by assumption the one situation that triggers defect D1 of the intrusive list (move-assignment from
 // a signal WITHOUT connections onto a signal that still has connections, see C11_intrusive_list.cpp) and must hold
-// without violation; avoid=0 explores everything.
+// without violation; h_signal*_all explore everything.
 //
 // Outside the claim: void signals' own operator() (same list iteration, no fold), exceptions thrown by callbacks,
 // re-entrant connect/disconnect from inside a callback, threads.
@@ -260,10 +260,10 @@ void check(world<U> &w)
 }
 
 template <bool U>
-void history()
+void history(bool const avoid)
 {
   world<U> w;
-  w.avoid = verif_param("avoid") != 0;
+  w.avoid = avoid;
   for (unsigned s = 0; s < NS; ++s) { w.S[s] = nullptr; w.cnt[s] = 0; w.moved_from[s] = false; }
   for (unsigned k = 0; k < NC; ++k) { w.C[k] = nullptr; w.was_connected[k] = false; unregistered[k] = 0; }
   w.next_comb = 0;
@@ -302,10 +302,12 @@ void history()
 }
 }
 
-VERIF_HARNESS(h_signal_history) { history<false>(); }
-VERIF_HARNESS(h_signal_unregister_history) { history<true>(); }
+VERIF_HARNESS(h_signal_all) { history<false>(false); }
+VERIF_HARNESS(h_signal_safe) { history<false>(true); }
+VERIF_HARNESS(h_signal_unregister_all) { history<true>(false); }
+VERIF_HARNESS(h_signal_unregister_safe) { history<true>(true); }
 
-//@harness h_signal_history param avoid=0..1 param init=0..3 param steps=1..3 param op1=0..6 if ((init>0)|(op1!=1))&((init==3)|(op1!=4))&((init<3)|((op1!=3)&(op1!=6))) tier=quick leak=1 paths=200000
-//@harness h_signal_unregister_history param avoid=0..1 param init=0..3 param steps=1..2 param op1=0..6 if ((init>0)|(op1!=1))&((init==3)|(op1!=4))&((init<3)|((op1!=3)&(op1!=6))) tier=quick leak=1 paths=200000
-//@harness h_signal_unregister_history param avoid=0..1 param init=0..3 param steps=3 param op1=0..6 if ((init>0)|(op1!=1))&((init==3)|(op1!=4))&((init<3)|((op1!=3)&(op1!=6))) tier=thorough leak=1 paths=200000
-//@harness h_signal_history param avoid=1 param init=0..3 param steps=4..5 param op1=0..6 if ((init>0)|(op1!=1))&((init==3)|(op1!=4))&((init<3)|((op1!=3)&(op1!=6))) tier=thorough leak=1 paths=1000000 wall=1700
+//@harness h_signal_{V} for V in all,safe param init=0..3 param steps=1..3 param op1=0..6 if ((init>0)|(op1!=1))&((init==3)|(op1!=4))&((init<3)|((op1!=3)&(op1!=6))) tier=quick leak=1 paths=200000
+//@harness h_signal_unregister_{V} for V in all,safe param init=0..3 param steps=1..2 param op1=0..6 if ((init>0)|(op1!=1))&((init==3)|(op1!=4))&((init<3)|((op1!=3)&(op1!=6))) tier=quick leak=1 paths=200000
+//@harness h_signal_unregister_{V} for V in all,safe param init=0..3 param steps=3 param op1=0..6 if ((init>0)|(op1!=1))&((init==3)|(op1!=4))&((init<3)|((op1!=3)&(op1!=6))) tier=thorough leak=1 paths=200000
+//@harness h_signal_safe param init=0..3 param steps=4..5 param op1=0..6 if ((init>0)|(op1!=1))&((init==3)|(op1!=4))&((init<3)|((op1!=3)&(op1!=6))) tier=thorough leak=1 paths=1000000 wall=1700
